@@ -109,7 +109,7 @@ impl Property for C08 {
     }
     fn rule(&self) -> String {
         "programs built from assignments, op-assignments, calls of three recording user functions (identity, increment, failing), failing sub-expressions (1/0, unbound variable, type error, overflow) and succeeding ones, \
-         nested in chains, tuples, operators and arguments: all programs of up to 3 statements from a 22-statement alphabet plus random deeper ones. The triple (result, final variable listing, ordered call log with arguments) of the real crate must equal \
+         nested in chains, tuples, operators and arguments: all programs of up to 3 statements from a 41-statement alphabet plus random deeper ones. The triple (result, final variable listing, ordered call log with arguments) of the real crate must equal \
          that of the reference interpreter (the Lean evaluator proved equal to the big-step relation Spec.Eval). non-trivial = at least one user-function call or assignment took effect; distinct = distinct program"
             .into()
     }
